@@ -160,8 +160,8 @@ theorem C02_fan_decomposition (p v0 : Pt) (l : List Pt) (hl : l ≠ []) :
     ringWinding p (v0 :: l ++ [v0]) = fanSum p v0 l := by
   rw [ringWinding_eq]; exact fan_decomposition p v0 l hl
 
-/-- **signed covering number** (what the winding number means, for every ring in general position with respect to the point): if no
-fan triangle `v0, vi, vi+1` is degenerate and `p` lies on the boundary of none, the coded winding number is the number of
+/-- **signed covering number** (what the winding number means, for every ring in general position with respect to the point): if `p` lies on
+the boundary of no non-degenerate fan triangle `v0, vi, vi+1` (a degenerate one contributes 0 about every point), the coded winding number is the number of
 counter-clockwise fan triangles that contain `p` strictly minus the number of clockwise ones - the classical signed area cover, for
 self-intersecting and non-convex rings alike, without the Jordan curve theorem.  In particular `point_intersects_polygon` on one
 ring answers True exactly when that signed count is non-zero -/
